@@ -450,6 +450,18 @@ fn rcf_alt(line: &str) -> Result<(), String> {
             return Err("reverse_complement of FrequencyMatrix::new(same data) differs from the one of the to_freq matrix".into());
         }
     }
+    // rounded (published) frequencies: rows within 0.01 of one but not exactly one — accepted by
+    // FrequencyMatrix::new, and reverse-complemented like any other matrix (a pure permutation)
+    if !fk.contains(&u64::MAX) {
+        let rounded: Vec<f32> = f.matrix().iter().flat_map(|r| r.iter().map(|x| (x * 1000.0).round() / 1000.0).collect::<Vec<f32>>()).collect();
+        if let Ok(g) = FrequencyMatrix::<Dna>::new(dense::<f32, Dna>(rows, &rounded)) {
+            let rg = g.reverse_complement();
+            want_rc("FrequencyMatrix::new(frequencies rounded to 3 decimals)", rows, g.matrix(), rg.matrix())?;
+            if rg.reverse_complement() != g {
+                return Err("FrequencyMatrix::new(rounded frequencies): rc(rc(m)) != m".into());
+            }
+        }
+    }
     // weight matrices reached through rescale (to the default background and back to their own)
     let wu = w.rescale(None);
     let rwu = wu.reverse_complement();
